@@ -2,6 +2,8 @@ mod util;
 mod rawdb_suite;
 mod vec_suite;
 mod import_suite;
+mod lazy_suite;
+mod eager_suite;
 
 use util::*;
 
@@ -25,6 +27,8 @@ fn main() {
             let rep = rawdb_suite::run(arg(&args, "--depth", 3usize), arg(&args, "--random-secs", 5u64), arg(&args, "--random-depth", 12usize), seed, thorough, threads);
             println!("{}", rep.to_json());
         }
+        "eager" => { println!("{}", eager_suite::run(arg(&args, "--depth", 3usize), threads).to_json()); }
+        "lazy" => { println!("{}", lazy_suite::run(arg(&args, "--maxn", 4usize)).to_json()); }
         "import" => { println!("{}", import_suite::run().to_json()); }
         "vecreads" => {
             unsafe { std::env::set_var("RAC_READS", "1"); }
